@@ -172,8 +172,10 @@ int32_t psSignHashRsa(psPool_t *pool,
     else
     {
         *out = sig;
-        *outLen = sigLen;
     }
+    /* Report the length in both cases: callers such as the DTLS
+       ServerKeyExchange retransmit cache rely on it */
+    *outLen = sigLen;
 
     return PS_SUCCESS;
 }
